@@ -380,6 +380,27 @@ def guard_text(root, rel, qual):
     if (fn.body and isinstance(fn.body[0], ast.Expr) and isinstance(fn.body[0].value, ast.Constant)
             and isinstance(fn.body[0].value.value, str)):
         fn.body = fn.body[1:] or [ast.Pass()]
+
+    # progress output is not behaviour the models describe: print(...) / sys.stdout.flush() statements, and `if` statements that
+    # contain nothing else, are dropped before the comparison (so is every comment and the layout, by ast.unparse)
+    def print_only(st):
+        if (isinstance(st, ast.Expr) and isinstance(st.value, ast.Call) and ast.unparse(st.value.func) in ("print", "sys.stdout.flush")
+                and not any(k.arg == "file" for k in st.value.keywords)):
+            return True
+        if isinstance(st, ast.If) and not st.orelse and all(print_only(x) for x in st.body):
+            return True
+        return False
+
+    class Strip(ast.NodeTransformer):
+        def generic_visit(self, node):
+            super().generic_visit(node)
+            for field in ("body", "orelse", "finalbody"):
+                b = getattr(node, field, None)
+                if isinstance(b, list) and b and all(isinstance(x, ast.stmt) for x in b):
+                    nb = [x for x in b if not print_only(x)]
+                    setattr(node, field, nb if (nb or field != "body") else [ast.Pass()])
+            return node
+    fn = Strip().visit(fn)
     return ast.unparse(fn) + "\n"
 
 
